@@ -93,7 +93,7 @@ theorem delta_render_fullcaps (legacy : Bool) (p n : Style) (hp : p.wf) (hn : n.
   exact ⟨h1, h2, h3⟩
 
 /-- What the consumer holds on a limited terminal is well formed and shows exactly what `shownCaps` says
-    (composition with C07: the palette fallback is an index colour). -/
+    (the palette fallback is an index colour: `asIndex_wf`, by the shape of C07's model of `Color.asIndex`). -/
 theorem capStyle_spec (rgb su : Bool) (s : Style) (hs : s.wf) :
     (capStyle rgb su s).wf ∧ shown (capStyle rgb su s) = shownCaps rgb su s :=
   ⟨capStyle_wf rgb su s hs, shown_capStyle rgb su s⟩
